@@ -410,13 +410,23 @@ def worker(
     try:
         cases = build_cases(chk, shard, nshards)
         chk.count("cases_generated", len(cases))
+        # Stop at the wall budget; on an overloaded machine go on (up to 3x the budget)
+        # until this worker's share of the minimum observation counts is reached.
+        min_cases = chk.pick(140, 2500)
         for name, text, target, cli in cases:
-            if chk.elapsed() > budget:
+            late = chk.elapsed() > budget
+            if late and (chk.evaluations >= min_cases or chk.elapsed() > 3 * budget):
                 chk.count("cases_skipped_by_wall_budget")
                 continue
             for m in name.split("/", 1)[1].split("+") if name.startswith("mut/") else ():
                 chk.hist("mutator", m)
-            info = evaluate(chk, stages, name, text, target)
+            try:
+                info = evaluate(chk, stages, name, text, target)
+            except (UnicodeError, OSError) as err:
+                # the driver could not even write the case (e.g. a lone surrogate that an
+                # escape in the model put into a snippet): not an observation
+                chk.hist("cases_the_driver_could_not_prepare", type(err).__name__)
+                continue
             if info["load_key"] is not None and info["load_key"] not in cli_by_key:
                 cli_by_key[info["load_key"]] = info
             elif cli:
@@ -444,7 +454,8 @@ def worker(
     forms = sorted(CLI_FORMS)
     t_cli = chk.elapsed()
     for i, info in enumerate(todo):
-        if i > 0 and chk.elapsed() - t_cli > cli_budget:
+        spent = chk.elapsed() - t_cli
+        if i > 0 and spent > cli_budget and (i >= 2 or spent > 3 * cli_budget):
             chk.count("cli_cases_skipped_by_wall_budget", len(todo) - i)
             break
         evaluate_cli(chk, info, forms[(i + shard) % 2], timeout=max(60.0, cli_budget))
@@ -470,6 +481,21 @@ def main(argv) -> int:
     if chk.replay:
         return replay(chk)
     hooks.import_all_repo_modules()  # before the fork: workers inherit the imported tree
+    warnings.simplefilter("ignore")
+
+    # Known-finding keys first: each listed key carries a minimal reproducer; a key whose
+    # reproducer no longer fails is reported as stale (it must not become a blanket
+    # suppression after the defect got fixed).
+    stages = StageMonitor(chk)
+    for key, entry in sorted(chk.known.items()):
+        text = entry.get("reproducer")
+        if not isinstance(text, str) or "\n" not in text:
+            continue
+        info = evaluate(chk, stages, "known-reproducer/" + key[:60], text, "python")
+        chk.count("known_reproducers_replayed")
+        if info["load_key"] != key:
+            chk.hist("stale_known_finding_key", f"{key} -> now {info['load_key'] or info['outcome']}")
+    stages.uninstall()
     budget = chk.wall_budget(40, 480)
     cli_max = chk.pick(5, 36)
     cli_budget = chk.pick(30.0, 150.0)
